@@ -1,6 +1,7 @@
 package main
 
 import (
+	"os"
 	"fmt"
 	"go/ast"
 	"go/token"
@@ -1149,6 +1150,42 @@ func c05r9(p *Program, r *Report) {
 					break
 				}
 			}
+			if !guarded {
+				// path-sensitively: the paths on which the variable was not assigned are excluded by a flag that was
+				// set together with it (`textDst, asText = v, true` ... `case !asText: *timeDst = ..`)
+				g.markNodes = map[ast.Node]string{}
+				ast.Inspect(fi.Decl.Body, func(y ast.Node) bool {
+					if as, isA := y.(*ast.AssignStmt); isA {
+						for i, l := range as.Lhs {
+							if lid, isId := l.(*ast.Ident); isId && info.Uses[lid] == info.Uses[id] && !(len(as.Rhs) == len(as.Lhs) && isNil(info, as.Rhs[i])) {
+								g.markNodes[as] = "set"
+							}
+						}
+					}
+					return true
+				})
+				ps := g.GuardFactsPSAbout(func(atom string) bool {
+					return strings.HasPrefix(atom, "§") || !strings.ContainsAny(atom, " .(")
+				})
+				node, found := g.cfgNodeOf(x)
+				if found {
+					if ds, has := ps.Before(node); has && len(ds) > 0 {
+						all := true
+						if os.Getenv("DBGC05R9") != "" {
+							for _, d := range ds {
+								fmt.Fprintln(os.Stderr, "R9", id.Name, factsKey(d))
+							}
+						}
+						for _, d := range ds {
+							if !d.m["§set"] {
+								all = false
+							}
+						}
+						guarded = all
+					}
+				}
+				g.markNodes = nil
+			}
 			r.Check(guarded, x, construct, "dominated by a nil test",
 				fmt.Sprintf("`%s` is nil on a path that reaches this field access (declared without a value, assigned only on some branches) and no nil test dominates it: a well-formed but unexpected response makes the driver dereference nil", id.Name))
 			return true
@@ -1328,4 +1365,11 @@ func c05r10(p *Program, r *Report) {
 		// nothing dereferences the header after readFrame in the function that called it: fine, but say so
 		r.OK(nil, "no function reads framer.header after calling readFrame on it", "census: 0 uses")
 	}
+}
+
+func exprStr0(n ast.Node) string {
+	if e, ok := n.(ast.Expr); ok {
+		return exprStr(e)
+	}
+	return fmt.Sprintf("%T", n)
 }
